@@ -528,9 +528,22 @@ func replayAuto(in json.RawMessage, res *vh.Result) error {
 	b, rec, closeFn := newBroker(reg, true)
 	defer closeFn()
 	tick := time.Second
+	const wave = 350 // behaviours stepped concurrently (they all wake in the middle of the same ticks)
+	for lo := 0; lo < len(behs); lo += wave {
+		hi := lo + wave
+		if hi > len(behs) {
+			hi = len(behs)
+		}
+		replayWave(b, rec, reg, res, behs[lo:hi], lo, tick)
+	}
+	return nil
+}
+
+func replayWave(b *centrifuge.MemoryMapBroker, rec *recorder, reg *registry, res *vh.Result, behs [][]map[string]any, off int, tick time.Duration) {
 	base := time.Now().Truncate(time.Second).Add(2 * time.Second)
 	var wg sync.WaitGroup
-	for bi, beh := range behs {
+	for i, beh := range behs {
+		bi := off + i
 		wg.Add(1)
 		go func(bi int, beh []map[string]any) {
 			defer wg.Done()
@@ -555,7 +568,6 @@ func replayAuto(in json.RawMessage, res *vh.Result) error {
 		}(bi, beh)
 	}
 	wg.Wait()
-	return nil
 }
 
 // ---------------------------------------------------------------- expiry (no goroutines, manual sweeps, gate between the phases)
